@@ -174,11 +174,15 @@ class FtpScript(object):
         self.log = []
         self.data_eps = []
         self.greets = 0
+        self.retr_done = False
 
     def hostile_at(self, at):
         h = self.hostile
         if not h or h.get('at') != at:
             return None
+        if h.get('when', 'target') == 'after_retr':
+            # only once the target file itself has been transferred (what follows is the listing for its mode bits)
+            return h['do'] if (self.run.target_active and self.retr_done) else None
         if h.get('when', 'target') == 'always' or self.run.target_active:
             return h['do']
         return None
@@ -294,6 +298,8 @@ class FtpControl(fakenet.BaseServer):
                     dep.send(payload)
                     dep.close()
             self.reply(ep, 'end', b'226 done\r\n')
+            if name == 'RETR' and s.run.target_active:
+                s.retr_done = True
         elif name == 'REST':
             self.reply(ep, 'REST', b'350 ok\r\n')
         elif name == 'QUIT':
